@@ -6,6 +6,7 @@ import ast
 from sa import astutil as A
 from sa import cfg as C
 from sa import dataflow as D
+from sa import surface as S
 from sa.index import AnalysisError
 from sa.rules import c03
 
@@ -202,7 +203,10 @@ def rule_b(ctx):
   for cls, (attrs, members) in SIBLINGS.items():
     for q in members:
       f = idx.func(q)
-      read = _attrs_read(f.node)
+      # the function and the private helpers it calls directly
+      read = set()
+      for h in S.helper_closure(idx, f):
+        read |= _attrs_read(h.node)
       for a in attrs:
         if cls == 'Choices' and q.endswith('_use_spec_for_child_choices') and a == 'candidates':
           # binds children through spec.subchoice(i) and the recursive use_spec
